@@ -396,9 +396,18 @@ def _square(v, n):
     return m + m.T
 
 
-def _tol(fl, exp_abs_max):
+def _magnitude(inp, scale):
+    """size of the largest term the estimator sums (cancellation error is relative to it, not to the result)"""
+    if inp['method'] not in ('euclidean', 'mahalanobis', 'crossnobis'):
+        return 1.0
+    xs = [np.abs(np.array(inp[k], dtype=float)).max() for k in ('x', 'x2', 'x3') if k in inp]
+    pm = [abs(v) for k in ('prec', 'prec2', 'fprec') for row in (inp.get(k) or []) for v in row]
+    return float((scale * max(xs + [1.0])) ** 2 * max(pm + [1.0]))
+
+
+def _tol(fl, exp_abs_max, mag=1.0):
     base = 2e-6 if fl['dtype'] == 'float32' else ATOL
-    return base * max(1.0, exp_abs_max)
+    return base * max(1.0, exp_abs_max, mag)
 
 
 def _sub_inputs(inp):
@@ -487,11 +496,10 @@ def check_vector(vec, fl, pid='C01', *, diagnose=True):
     try:
         got = project(call_impl(inp, fl))
     except Exception as e:  # noqa: BLE001
-        cls = f"{mode}/{_desc_name(inp)}/{method}"
+        key = f"{pid}/{cl}/raises/{type(e).__name__}/{mode}/{_desc_name(inp)}/{method}"
         if mode == 'movie' and len(inp['x3'][0][0]) == 1:
-            cls = 'movie/n_channel=1'
-        return [(f'{pid}/{cl}/raises/{type(e).__name__}/{cls}',
-                 f'{type(e).__name__} raised inside the documented contract: {str(e)[:160]}', {})]
+            key = f'{pid}/f/movie/n_channel=1/raises/{type(e).__name__}'
+        return [(key, f'{type(e).__name__} raised inside the documented contract: {str(e)[:160]}', {})]
     problems = []
     n = len(out['lab'])
     L = [_norm(_lab(k, fl)) for k in out['lab']]
@@ -541,7 +549,7 @@ def check_vector(vec, fl, pid='C01', *, diagnose=True):
                              {'got': subj}))
     # ---- values ----------------------------------------------------------------------------
     pairs = [(p, q) for p in range(n) for q in range(p + 1, n)]
-    tol = _tol(fl, float(np.nanmax(np.abs(exp))) if np.isfinite(exp).any() else 1.0)
+    tol = _tol(fl, float(np.nanmax(np.abs(exp))) if np.isfinite(exp).any() else 1.0, _magnitude(inp, fl['scale']))
     bad = []
     gotmat = np.full_like(exp, np.nan)
     for r in range(nr):
